@@ -113,4 +113,21 @@ class C02(Prop):
         return out
 
 
+    def extra_checks(self, ctx):
+        """free-running stress (no scheduler): catches changes that add shared accesses the yield
+        points cannot see; judged by the property (one Ok, losers get their own recorder back,
+        per-thread no Some->None / no change of recorder, final load = winner)"""
+        from .core import run_impl
+        rounds = 6 if ctx["tier"] == "quick" else 60
+        lines = ["STRESS %d %d %d" % (3 + i % 3, 2 + i % 3, 3000) for i in range(rounds)]
+        rc, outs, err = run_impl(ctx["binpath"], lines, timeout=600)
+        ctx["coverage"]["stress_rounds"] = rounds
+        ctx["coverage"]["stress_results"] = outs[:3]
+        fails = [o for o in outs if not o.startswith("stress ok")]
+        if rc != 0 or len(outs) != rounds or fails:
+            return [("stress", "free-running stress of RecorderOnceCell violated the property: " + (fails[0] if fails else "driver failed"),
+                     dict(command="echo 'STRESS 4 3 3000' | .cache/target/release/c02", observed=fails[:5], stderr=err[-500:]))]
+        return []
+
+
 PROP = C02()
